@@ -174,6 +174,16 @@ class Deque(list):
     """collections.deque as a list with the deque methods"""
 
 
+class EnumInt(int):
+    """a member of an IntEnum / IntFlag of the project: an int (indexing, comparison, hashing as Python does) that also knows its
+    class and name, so that properties and methods of the enum class can be called on it"""
+    cls = None
+    name = ""
+
+    def __repr__(self):
+        return f"<{self.cls.name if self.cls else 'IntEnum'}.{self.name}: {int(self)}>"
+
+
 class DefaultDict(dict):
     """collections.defaultdict / Counter: a dictionary whose missing keys are produced by `factory` (a callable of the interpreter,
     or None for Counter's 0)"""
@@ -361,11 +371,25 @@ class MiniInterp:
         if isinstance(st, ast.Pass):
             return
         if isinstance(st, ast.Raise):
-            name = "Exception"
-            if st.exc is not None:
-                e = st.exc
-                name = attr_chain(e.func if isinstance(e, ast.Call) else e) or "Exception"
-            raise PyRaise(name.split(".")[-1], st)
+            if st.exc is None:
+                cur = env.get("__exc__")
+                if isinstance(cur, PyRaise):
+                    raise cur                      # bare `raise` inside a handler: the exception being handled
+                raise PyRaise("RuntimeError", st)
+            e = st.exc
+            name = (attr_chain(e.func if isinstance(e, ast.Call) else e) or "Exception").split(".")[-1]
+            value = None
+            if isinstance(e, ast.Name) and isinstance(env.get(e.id), Sym) and getattr(env[e.id], "caught", None) is not None:
+                raise env[e.id].caught             # `raise err` of the name bound by `except ... as err`
+            try:
+                value = self.ev(e, env, fi)
+            except Unknown:
+                value = None
+            if isinstance(value, Sym) and value.cls is not None:
+                name = value.cls.name              # an exception class of the project
+            ex = PyRaise(name, st)
+            ex.value = value
+            raise ex
         if isinstance(st, ast.Try):
             try:
                 self.block(st.body, env, fi)
@@ -376,8 +400,17 @@ class MiniInterp:
                     from .core import exc_is_caught
                     if exc_is_caught(ex.name, names):
                         if h.name:
-                            env[h.name] = Sym("exc:" + ex.name)
-                        self.block(h.body, env, fi)
+                            bound = getattr(ex, "value", None)
+                            if not isinstance(bound, Sym):
+                                bound = Sym("exc:" + ex.name)
+                            bound.caught = ex
+                            env[h.name] = bound
+                        prev = env.get("__exc__")
+                        env["__exc__"] = ex
+                        try:
+                            self.block(h.body, env, fi)
+                        finally:
+                            env["__exc__"] = prev
                         break
                 else:
                     raise
@@ -712,7 +745,9 @@ class MiniInterp:
                 if isinstance(val, int):
                     nxt = val + 1
                 if bases & {"IntEnum", "IntFlag"} and isinstance(val, int):
-                    out.append((st.targets[0].id, val))
+                    m = EnumInt(val)
+                    m.cls, m.name = ci, st.targets[0].id
+                    out.append((st.targets[0].id, m))
                 elif "StrEnum" in bases and isinstance(val, str):
                     out.append((st.targets[0].id, val))
                 else:
@@ -1063,6 +1098,21 @@ class MiniInterp:
             raise Unknown("comparison")
 
     def getattr(self, obj, attr, fi, node):
+        if isinstance(obj, EnumInt) and obj.cls is not None:
+            if attr == "name":
+                return obj.name
+            if attr == "value":
+                return int(obj)
+            m = obj.cls.find_method(attr)
+            if m is not None:
+                if m.is_property():
+                    return self.call(self.prj.func(m.qual, raw=True), [], {}, obj)
+                if m.is_classmethod():
+                    return BoundFunc(m, T("class", obj.cls))
+                return BoundFunc(m, obj)
+            for nm, val in self.enum_members(obj.cls) or []:
+                if nm == attr:
+                    return val
         if isinstance(obj, Sym):
             if attr in obj.fields:
                 return obj.fields[attr]
@@ -1104,7 +1154,7 @@ class MiniInterp:
             if attr in m.functions:
                 return BoundFunc(m.functions[attr])
             if attr in m.assigns:
-                return self.ev(m.assigns[attr], {}, next(iter(m.functions.values())) if m.functions else fi)
+                return self.ev(m.assigns[attr], {}, self.module_anchor(m, fi))
             raise Unknown(f"module attribute {attr}")
         if isinstance(obj, tuple) and obj and obj[0] == "class":
             ci = obj[1]
@@ -1194,6 +1244,14 @@ class MiniInterp:
             raise PyRaise("AttributeError", node)        # e.g. None.items(), "text".keys(): the program's error, not the model's
         raise Unknown(f"attribute {attr} of {t.__name__}")
 
+    @staticmethod
+    def module_anchor(mm, default):
+        """a function of module mm in whose context a module-level expression of mm is evaluated (names resolve as in mm)"""
+        f0 = next(iter(mm.functions.values()), None)
+        if f0 is None:
+            f0 = next((m for c in mm.classes.values() for m in c.methods.values()), None)
+        return f0 if f0 is not None else default
+
     def global_name(self, name, fi: FuncInfo):
         o = fi.outer
         m = fi.module
@@ -1219,7 +1277,7 @@ class MiniInterp:
                 return T("module", tgt)
             if isinstance(tgt, tuple) and tgt[0] == "modattr":
                 mm = tgt[1]
-                f0 = next(iter(mm.functions.values()), fi)
+                f0 = self.module_anchor(mm, fi)
                 cache = self.__dict__.setdefault("_globals", {})
                 key = (mm.name, tgt[2])
                 if key not in cache:
